@@ -794,6 +794,9 @@ int CBigComplexLinProb::PCGSQStart()
     // do iteration;
     for(k=0; k<3; k++)
     {
+        // already converged (tiny or fully prescribed systems): the next step would divide 0 by 0
+        if((res.re==0) && (res.im==0)) break;
+
         // step i)
         MultAPPA(P,U);
         pAp=ConjDot(P,U);
@@ -839,6 +842,7 @@ int CBigComplexLinProb::PBCGSolve(int flag)
 
     // initialize progress bar;
     er=nrm(R)/normb;
+    if(!(er>Precision)) return 1; // the starting point already meets the tolerance (the loop below would divide 0 by 0)
     prg1=(int) (20.*log10(er)/(log10(Precision)));
 //	TheView->m_prog1.SetPos(5*prg1);
 //	TheView->SetDlgItemText(IDC_FRAME1,"BiConjugate Gradient Solver");
